@@ -161,8 +161,8 @@ def faultKind (f : String) : Dkg.GenFault :=
   if f == "-" then .none else
   let k := (f.splitOn ":").headD ""
   if k == "drop" || k == "err" then .lost
-  else if k == "commitpub" || k == "commitsig" then .badCommitReply
-  else if k == "dup" || k == "delay" then .none
+  else if k == "commitpub" || k == "commitsig" || k == "equiv" then .badCommitReply
+  else if k == "dup" || k == "delay" || k == "delayall" then .none
   else .badContribution
 
 /-- the signer model of cluster instance `i`, knowing account `w/a` (keyed by an instance-specific key) -/
@@ -343,6 +343,18 @@ def dstepCore (st : DState) (line : String) : DState × Option String :=
                 else c
       ({ st with cluster := c' }, some (if ok then "ok" else "err"))
     | _, _, _, _, _ => bad st line
+  -- two overlapping generations for one name: X (all its commit requests held back for a while) and, started while X
+  -- waits, Y through another instance.  Y finds the name in progress and fails without effect; X completes.
+  | ["gens", ini, client, acct, t, n, _ms, _ini2, _t2, _n2] =>
+    match ini.toNat?, unhexStr client, unhexStr acct, t.toNat?, n.toNat? with
+    | some ini, some client, some acct, some t, some n =>
+      let c := st.cluster
+      let exists_ := c.insts.any (fun x => x.accounts.contains acct)
+      let r := Dkg.generateOutcome c.insts.length n t (Dkg.distributedWallet acct) exists_ (client == "client1") .none
+      let c' := if r.2 && n == c.insts.length then { c with insts := c.insts.map (fun x => { x with accounts := acct :: x.accounts }) } else c
+      let _ := ini
+      ({ st with cluster := c' }, some ((if r.1 then "ok" else "err") ++ " err"))
+    | _, _, _, _, _ => bad st line
   | ["holds", acct] =>
     match unhexStr acct with
     | some acct =>
@@ -365,6 +377,13 @@ def dstepCore (st : DState) (line : String) : DState × Option String :=
         (o.1, if o.2 == .ok then acc.2 + 1 else acc.2)) (st.cluster, 0)
       ({ st with cluster := r.1 }, some ("ok=" ++ toString r.2))
     | _, _, _, _, _, _ => bad st line
+  -- a Prepare whose participant list pairs endpoints with other participants' ids: the ids are what the model keeps
+  | ["hprepares", i, caller, acct, t, parts, _a, _b] =>
+    match i.toNat?, hs caller, unhexStr acct, t.toNat?, parseIds parts with
+    | some i, some caller, some acct, some t, some parts =>
+      let (c, r) := Dkg.onPrepare st.cluster i (callerId st.cluster caller) acct t parts
+      ({ st with cluster := c }, some r.toStr)
+    | _, _, _, _, _ => bad st line
   | ["hexecute", i, caller, acct] =>
     match i.toNat?, hs caller, unhexStr acct with
     | some i, some caller, some acct =>
@@ -541,6 +560,12 @@ def dstepCore (st : DState) (line : String) : DState × Option String :=
     | _, _ => bad st line
   | ["restart"] => (st, some "ok")
   | ["export"] => (st, some (exportLine st.inst.db))
+  -- rules-level ImportSlashingProtection on the live instance (Dirk.importKey)
+  | ["importsvc", k, a, b, c] =>
+    match unhex k, a.toInt?, b.toInt?, c.toInt? with
+    | some k, some a, some b, some c =>
+      ({ st with inst := { st.inst with db := importKey st.inst.db (toBytes48 k) { slot := a, src := b, tgt := c } } }, some "ok")
+    | _, _, _, _ => bad st line
   -- judge: released signatures observed on the implementation, evaluated by the Spec predicates
   | ["jatt", k, d] =>
     match unhex k, parseAtt (d.splitOn ",") with
